@@ -72,6 +72,7 @@ func worker() {
 	NP, _ := strconv.Atoi(os.Getenv("C06_PATHS"))
 	// index of a lock path that is not a regular file (-1: none); "chardev" or "fifo"
 	unpriv := os.Getenv("C06_UNPRIV") == "1"
+	nosys := os.Getenv("C06_NOSYS") == "1"
 	nonreg, nonregKind := -1, os.Getenv("C06_NONREG_KIND")
 	if v := os.Getenv("C06_NONREG"); v != "" {
 		nonreg, _ = strconv.Atoi(v)
@@ -231,6 +232,12 @@ func worker() {
 					cr := &contentReader{enter: enter, leave: leave, data: []byte(fmt.Sprintf("w %d %d\n", os.Getpid(), i))}
 					err = lockedfile.Write(path, cr, 0o666)
 				}
+				if err != nil && nosys && (errors.Is(err, syscall.ENOSYS) || strings.Contains(err.Error(), "function not implemented")) {
+					mu.Lock()
+					res.Acq["(refused or unlock failed: flock not implemented) "+api]++
+					mu.Unlock()
+					continue
+				}
 				if err != nil && unpriv && errors.Is(err, fs.ErrPermission) {
 					mu.Lock()
 					res.Acq["(refused: read-only lock file, unprivileged) "+api]++
@@ -273,7 +280,7 @@ func main() {
 		return
 	}
 	vlib.Main("C06", "exploration", 10*time.Minute, func(r *vlib.Run) {
-		r.Rule("rounds of P processes x G goroutines released together, each doing N acquisitions on 2-3 lock paths (regular files; every other round also one private character device or FIFO, whose truncation by Create/Write fails and is tolerated) through a random entry point (OpenFile O_RDONLY/O_WRONLY/O_RDWR, Open, Create, Edit, Mutex.Lock, inside Transform's function, inside the reader handed to Write), dwelling 0-300us inside, with seeded delays at the lockedfile.open/close hooks; every second worker process closes its standard input first, so that lock files are opened on descriptor 0; one round in six runs its workers as uid 65534 on lock files they can read but not write (write-locking entry points must be refused, not weakened); every third round the workers run under strace, which makes every other flock call of every thread fail with EINTR (an interrupted lock request must be reissued, never taken for granted). Evaluations = acquisitions; distinct non-trivial = acquisitions that found a conflicting holder inside when they were invoked (had to wait), plus rounds.")
+		r.Rule("rounds of P processes x G goroutines released together, each doing N acquisitions on 2-3 lock paths (regular files; every other round also one private character device or FIFO, whose truncation by Create/Write fails and is tolerated) through a random entry point (OpenFile O_RDONLY/O_WRONLY/O_RDWR, Open, Create, Edit, Mutex.Lock, inside Transform's function, inside the reader handed to Write), dwelling 0-300us inside, with seeded delays at the lockedfile.open/close hooks; every second worker process closes its standard input first, so that lock files are opened on descriptor 0; one round in six runs its workers as uid 65534 on lock files they can read but not write (write-locking entry points must be refused, not weakened); every third round the workers run under strace, which makes every other flock call of every thread fail with EINTR (an interrupted lock request must be reissued, never taken for granted) or, in every other such round, every third one with ENOSYS (a refused lock request must surface as an error, never as an unlocked file). Evaluations = acquisitions; distinct non-trivial = acquisitions that found a conflicting holder inside when they were invoked (had to wait), plus rounds.")
 		r.Assume("flock semantics of the host kernel; the occupancy word is updated only between an acquiring call's return and the releasing call's invocation")
 		base := vlib.Scratch()
 		rounds := r.Pick(6, 28)
@@ -348,9 +355,13 @@ func main() {
 			}
 			// every third round the workers run under strace with EINTR injected into flock
 			eintrRound := round%3 == 2 && haveStrace
+			nosysRound := eintrRound && (round/3)%2 == 1
 			var straceLogs []string
-			if eintrRound {
+			if eintrRound && !nosysRound {
 				r.Count("rounds_with_EINTR_injected_into_flock", 1)
+			}
+			if nosysRound {
+				r.Count("rounds_with_ENOSYS_injected_into_flock", 1)
 			}
 			P := r.Pick(4, 8)
 			G := r.Pick(8, 16)
@@ -371,11 +382,17 @@ func main() {
 					// taken for a granted lock
 					slog := filepath.Join(dir, fmt.Sprintf("strace%d.log", p))
 					straceLogs = append(straceLogs, slog)
-					cmd = exec.Command("strace", "-f", "-qq", "--seccomp-bpf", "-e", "trace=flock", "-e", "inject=flock:error=EINTR:when=1+2", "-o", slog, os.Args[0])
+					inj := "inject=flock:error=EINTR:when=1+2"
+					if nosysRound {
+						// the locking call is refused outright (ENOSYS, as under a seccomp filter or on a
+						// mount without advisory locks): the caller must get an error, never an unlocked file
+						inj = "inject=flock:error=ENOSYS:when=2+3"
+					}
+					cmd = exec.Command("strace", "-f", "-qq", "--seccomp-bpf", "-e", "trace=flock", "-e", inj, "-o", slog, os.Args[0])
 				}
 				cmd.Env = append(os.Environ(), "C06_WORKER=1", "C06_DIR="+dir, "C06_OUT="+out,
 					fmt.Sprintf("C06_SEED=%d", r.SubSeed(fmt.Sprintf("w-%d-%d", round, p))%1_000_000),
-					fmt.Sprintf("C06_G=%d", G), fmt.Sprintf("C06_N=%d", N), fmt.Sprintf("C06_PATHS=%d", NP), fmt.Sprintf("C06_CLOSE_STDIN=%d", p%2), fmt.Sprintf("C06_UNPRIV=%d", map[bool]int{true: 1}[unprivRound]), fmt.Sprintf("C06_NONREG=%d", nonreg), "C06_NONREG_KIND="+nonregKind, vlib.RaceEnv(racePrefix))
+					fmt.Sprintf("C06_G=%d", G), fmt.Sprintf("C06_N=%d", N), fmt.Sprintf("C06_PATHS=%d", NP), fmt.Sprintf("C06_CLOSE_STDIN=%d", p%2), fmt.Sprintf("C06_NOSYS=%d", map[bool]int{true: 1}[nosysRound]), fmt.Sprintf("C06_UNPRIV=%d", map[bool]int{true: 1}[unprivRound]), fmt.Sprintf("C06_NONREG=%d", nonreg), "C06_NONREG_KIND="+nonregKind, vlib.RaceEnv(racePrefix))
 				cmd.Stderr = os.Stderr
 				if err := cmd.Start(); err != nil {
 					r.Inconclusive(err.Error())
@@ -421,7 +438,7 @@ func main() {
 			}
 			for _, sl := range straceLogs {
 				if b, err := os.ReadFile(sl); err == nil {
-					r.Count("flock_calls_failed_with_injected_EINTR", int64(strings.Count(string(b), "(INJECTED)")))
+					r.Count("flock_calls_failed_with_an_injected_errno", int64(strings.Count(string(b), "(INJECTED)")))
 				}
 			}
 			// quiescence: all words must be back to zero
